@@ -6,9 +6,32 @@ use std::collections::HashMap;
 use std::borrow::Borrow;
 use std::hash::Hash;
 verus! {
+//@include specs/std_extra.rs
 //@include specs/err.rs
 //@include specs/tok.rs
-pub struct ByteTokenizerConfig;  // configuration record, never inspected by these units
+//@unit src/tokenization.rs enum GroupAggregation
+//@rule derive_drop
+pub enum GroupAggregation {
+    Mean,
+    Sum,
+}
+//@end
+//@unit src/tokenization.rs enum ByteGroups
+//@rule derive_drop
+pub enum ByteGroups {
+    Bytes,
+    CodePoints,
+}
+//@end
+//@unit src/tokenization.rs struct ByteTokenizerConfig
+//@rule derive_drop
+pub struct ByteTokenizerConfig {
+    pub use_graphemes: bool,
+    pub pad_to_multiple_of: Option<usize>,
+    pub groups: ByteGroups,
+    pub aggregation: GroupAggregation,
+}
+//@end
 
 //@unit src/tokenization.rs type VocabFreeTokenizer
 pub type VocabFreeTokenizer<Config> = BaseTokenizer<Config>;
